@@ -71,7 +71,21 @@ pub fn check(b: &Bound, c: &Case) -> Result<Option<String>, String> {
             Ok(g) => g,
             Err(e) => return Some(format!("graph for the network read from {}: {e}", c.fmt)),
         };
-        let written: HashMap<String, GraphColoredVertices> = c.sets.iter().map(|(l, m)| (l.clone(), b.mk_set_in(&g1, m))).collect();
+        let mut written: HashMap<String, GraphColoredVertices> = c.sets.iter().map(|(l, m)| (l.clone(), b.mk_set_in(&g1, m))).collect();
+        // sets that DEPEND on the spare (HCTL) variables are legitimate archive content too (intermediate results,
+        // relations): one per spare set, compared as BDDs after the reload
+        let mut open_labels: Vec<String> = vec![];
+        if c.k >= 1 && !c.sets.is_empty() {
+            let sc = g1.symbolic_context();
+            let v0 = g1.variables().next().unwrap();
+            for i in 0..(c.k as usize).min(2) {
+                let rel = sc.mk_extra_state_variable_is_true(v0, i).iff(&sc.mk_state_variable_is_true(v0));
+                let base = written.values().next().unwrap().as_bdd().clone();
+                let label = format!("open_{i}");
+                written.insert(label.clone(), GraphColoredVertices::new(rel.and(&base.or(&sc.mk_extra_state_variable_is_true(v0, i))), sc));
+                open_labels.push(label);
+            }
+        }
         match c.prior {
             1 => {
                 let other = BooleanNetwork::try_from("zz_old -| zz_old\n$zz_old: !zz_old\n").unwrap();
@@ -101,7 +115,7 @@ pub fn check(b: &Bound, c: &Case) -> Result<Option<String>, String> {
             Err(e) => return Some(format!("archive is not a readable zip: {e}")),
         };
         let names: Vec<String> = entries.iter().map(|(n, _)| n.clone()).collect();
-        let mut want: BTreeSet<String> = c.sets.iter().map(|(l, _)| format!("{l}.bdd")).collect();
+        let mut want: BTreeSet<String> = c.sets.iter().map(|(l, _)| format!("{l}.bdd")).chain(open_labels.iter().map(|l| format!("{l}.bdd"))).collect();
         want.insert("model.aeon".into());
         want.insert("formulae.txt".into());
         let have: BTreeSet<String> = names.iter().cloned().collect();
@@ -132,6 +146,11 @@ pub fn check(b: &Bound, c: &Case) -> Result<Option<String>, String> {
         let wk: BTreeSet<&String> = written.keys().collect();
         if lk != wk {
             return Some(format!("reloaded labels {lk:?}, written {wk:?}"));
+        }
+        for l in &open_labels {
+            if loaded[l].as_bdd() != written[l].as_bdd() {
+                return Some(format!("set under label {l:?} (a set that depends on spare variable set {}) reloads as a different BDD: written {} elements, reloaded {}", &l[5..], written[l].exact_cardinality(), loaded[l].exact_cardinality()));
+            }
         }
         for (l, m) in &c.sets {
             let got = &loaded[l];
@@ -465,6 +484,6 @@ pub fn run(tier: &str) -> Result<Report, String> {
         }
     }
     rep.sample(json!({"network": "con2", "format": "sbml", "k": 2, "labels": ["a", "x_1", "A.b", "formula-0"], "formulae_lines": 3}));
-    rep.rule = format!("networks {which:?} x input format (aeon, aeon with reversed line order, sbml, bnet where the format reproduces the network exactly) x k in {ks:?} x 7 label->set maps (empty map, empty set, unit set, colour-dependent/empty-for-some-colours/colour-disjoint family sets, raw results; labels formula-0, a, x_1, A.b, run.2.fixed, 'dom 1', x-y, é_2, BDD, a.bdd, nested labels zz/p 0/p dir/sub/q next to p, s0..) x 4 formula lists (0-3 lines) x (aeon) 4 histories of the target path (fresh, an earlier result archive of another model with other formulae and overlapping + additional labels, a non-zip file, an empty file): build_result_archive -> independent unzip (entry list exact, formulae.txt lines) -> model.aeon re-parsed, symbolic context compared by variable names -> load_bdd_bundle -> every set compared point-wise on all (state, valid colour) pairs and as BDD -> reloaded sets used as wild-card/domain context of three extended formulae; plus analyse_formulae archives: entry formula-i equals the result of line i; plus the chain context archive -> analyse_formulae -> result archive with context sets inside and outside the valid colours (whole symbolic space, raw state variable) vs evaluation with the in-memory sets. distinct_nontrivial = round-trip cases with at least one set");
+    rep.rule = format!("networks {which:?} x input format (aeon, aeon with reversed line order, sbml, bnet where the format reproduces the network exactly) x k in {ks:?} x 7 label->set maps (empty map, empty set, unit set, colour-dependent/empty-for-some-colours/colour-disjoint family sets, raw results; labels formula-0, a, x_1, A.b, run.2.fixed, 'dom 1', x-y, é_2, BDD, a.bdd, nested labels zz/p 0/p dir/sub/q next to p, s0..) x 4 formula lists (0-3 lines) x (aeon) 4 histories of the target path (fresh, an earlier result archive of another model with other formulae and overlapping + additional labels, a non-zip file, an empty file): build_result_archive -> independent unzip (entry list exact, formulae.txt lines) -> model.aeon re-parsed, symbolic context compared by variable names -> load_bdd_bundle (for k >= 1 the map also holds sets that depend on the spare variable sets, compared as BDDs) -> every set compared point-wise on all (state, valid colour) pairs and as BDD -> reloaded sets used as wild-card/domain context of three extended formulae; plus analyse_formulae archives: entry formula-i equals the result of line i; plus the chain context archive -> analyse_formulae -> result archive with context sets inside and outside the valid colours (whole symbolic space, raw state variable) vs evaluation with the in-memory sets. distinct_nontrivial = round-trip cases with at least one set");
     Ok(rep)
 }
